@@ -191,9 +191,63 @@ fn run_generic<S: Subject>(m: &S, lay: &Layout, t: &mut Tape, cx: &mut Cx) -> Re
     Ok(())
 }
 
+/// The collection is obtained either directly or through a chain of insert_region /
+/// remove_region calls (any collection of regions, however it was built, is in scope).
 fn run_mmap(t: &mut Tape, cx: &mut Cx) -> Result<(), String> {
+    use std::sync::Arc;
+    use vm_memory::{GuestMemoryMmap, GuestRegionMmap};
     let lay = gen_layout(t, 5, TopMode::Mmap, true);
-    let m = build_mmap(&lay)?;
+    let mode = t.below(3);
+    if mode == 0 {
+        let m = build_mmap(&lay)?;
+        return run_generic(&m, &lay, t, cx);
+    }
+    let mk = |s: u64, l: u64| -> Result<Arc<GuestRegionMmap<()>>, String> {
+        GuestRegionMmap::<()>::from_range(GuestAddress(s), l as usize, None).map(Arc::new).map_err(|e| format!("from_range: {:?}", e))
+    };
+    if mode == 1 {
+        // start from a superset and remove the extra regions
+        cx.nt("built_by_remove_region");
+        let mut all = lay.regs.clone();
+        let mut extras = Vec::new();
+        let nextra = 1 + t.idx(3);
+        for _ in 0..nextra {
+            // place an extra 1..8-byte region in a gap (or before/after everything)
+            let slot = t.idx(all.len() + 1);
+            let lo = if slot == 0 { 0u128 } else { all[slot - 1].0 as u128 + all[slot - 1].1 as u128 };
+            let hi = if slot == all.len() { TOP - 1 } else { all[slot].0 as u128 };
+            if hi <= lo {
+                continue;
+            }
+            let len = (1 + t.below(8) as u128).min(hi - lo);
+            let start = match t.below(3) {
+                0 => lo,
+                1 => hi - len,
+                _ => lo + (t.below(1 << 20) as u128).min(hi - len - lo),
+            };
+            all.insert(slot, (start as u64, len as u64));
+            extras.push((start as u64, len as u64));
+        }
+        let regions: Result<Vec<_>, String> = all.iter().map(|&(s, l)| mk(s, l)).collect();
+        let mut m = GuestMemoryMmap::from_arc_regions(regions?).map_err(|e| format!("from_arc_regions({:x?}): {:?}", all, e))?;
+        note!(cx, "superset {:x?}, removing {:x?}", all, extras);
+        // remove in tape-chosen order
+        while !extras.is_empty() {
+            let (s, l) = extras.remove(t.idx(extras.len()));
+            let (m2, _r) = m.remove_region(GuestAddress(s), l).map_err(|e| format!("remove_region({:#x},{}): {:?}", s, l, e))?;
+            m = m2;
+        }
+        return run_generic(&m, &lay, t, cx);
+    }
+    // start from one region and insert the others in tape-chosen order
+    cx.nt("built_by_insert_region");
+    let mut pending = lay.regs.clone();
+    let first = pending.remove(t.idx(pending.len()));
+    let mut m = GuestMemoryMmap::from_arc_regions(vec![mk(first.0, first.1)?]).map_err(|e| format!("{:?}", e))?;
+    while !pending.is_empty() {
+        let (s, l) = pending.remove(t.idx(pending.len()));
+        m = m.insert_region(mk(s, l)?).map_err(|e| format!("insert_region({:#x},{}): {:?}", s, l, e))?;
+    }
     run_generic(&m, &lay, t, cx)
 }
 
